@@ -1,25 +1,24 @@
 """Byte strings with concrete length and symbolic elements."""
 import z3
-from .core import (SymInt, SymBool, mk_bool, W, ctx, Unsupported, sym_and, sym_not, _bv)
+from .core import (SymInt, SymBool, mk_bool, W, ctx, Unsupported, sym_and, sym_not, sym_or, _bv)
 
 
 def _elt_to_int(e):
     """stored element (int | z3 BV8) -> Python int | SymInt"""
     if isinstance(e, int):
         return e
-    return SymInt(z3.ZeroExt(W - 8, e), 0, 255)
+    return SymInt(e, 0, 255)
 
 
 def _int_to_elt(x):
     """Python int | SymInt -> stored element, with Python's range check"""
     if isinstance(x, SymBool):
-        x = SymInt.coerce(x)
-        x = SymInt.mk(*x)
+        x = SymInt.lift(x)
     if isinstance(x, SymInt):
         if x.lo < 0 or x.hi > 255:
-            if ctx().decide(z3.Or(x.t < 0, x.t > 255)):
+            if sym_or(x < 0, x > 255):
                 raise ValueError("byte must be in range(0, 256)")
-        e = z3.simplify(z3.Extract(7, 0, x.t))
+        e = z3.simplify(x.at(8))
         if z3.is_bv_value(e):
             return e.as_long()
         return e
